@@ -1,5 +1,6 @@
 mod alloc;
 mod backend;
+mod crash;
 mod history;
 mod image;
 mod mm;
@@ -48,6 +49,7 @@ fn main() {
         "xxh" => xxh::run(&args),
         "mm" => mm::run(&args),
         "history" => history::run(&args),
+        "crash" => crash::run(&args),
         other => {
             eprintln!("unknown command {other}");
             std::process::exit(2);
